@@ -238,6 +238,12 @@ func expandGuards(gs []Guard) []Guard {
 	return out
 }
 
+// guardsOnEdge: the facts that hold when control takes the edge pred→to: the guards of pred, the edge's own
+// branch condition, and what those imply (short-circuit values decomposed).
+func guardsOnEdge(pred, to *ssa.BasicBlock) []Guard {
+	return expandGuards(append(guardsOfRaw(pred), edgeGuard(pred, to)...))
+}
+
 // guardsAt returns the guards for the block of instr.
 func guardsAt(instr ssa.Instruction) []Guard { return guardsOf(instr.Block()) }
 
